@@ -98,6 +98,53 @@ def getSessObj (s : DState) (a : Nat) : Option Fsm :=
 inductive Sel (α : Type) where
   | null | obj (i : Nat) (x : α) | err
 
+def tickOp (s : DState) (m e t port : String) (jump : Option (Nat × Nat)) : DState × List String :=
+  let selM : Sel (Fsm × Option MapState) :=
+    if m == "-" then .null else match parseIdx m 16 with
+      | some M => match getMapObj s M with | some x => .obj M x | none => .err
+      | none => .err
+  let selE : Sel (Fsm × Option Band) :=
+    if e == "-" then .null else match parseIdx e 16 with
+      | some E => match getEnumObj s E with | some x => .obj E x | none => .err
+      | none => .err
+  let selT : Sel Table :=
+    if t == "-" then .null else match parseIdx t 16 with
+      | some T => match s.tbl[T]?.getD none with | some x => .obj T x | none => .err
+      | none => .err
+  let pm : Option PortMode := match port with
+    | "wired" => some .wired | "nolast" => some .nolast | "none" => some .none | _ => none
+  match selM, selE, selT, pm with
+  | .err, _, _, _ | _, .err, _, _ | _, _, .err, _ | _, _, _, none => (s, bad)
+  | sm, se, st, some pm =>
+    let slot := match se with | .obj E _ => E | _ => 0
+    let ts : TickState :=
+      { mapping := match sm with | .obj _ x => some x | _ => none,
+        enum := match se with | .obj _ x => some x | _ => none,
+        table := match st with | .obj _ x => some x | _ => none,
+        lastTx := s.lastTx[slot]! }
+    let nowMs := s.w.clockMs
+    let (w', ts', hellos) : World × TickState × List Nat := match jump with
+      | none => let r := tick ts pm nowMs; (s.w, r.1, r.2)
+      | some (kk, d) =>
+        let nowL := nowMs + d
+        let r := tickR ts pm nowMs (if kk == 1 then nowL / 1000 else nowMs / 1000) nowL
+        ({ s.w with clockMs := nowL }, r.1, r.2)
+    let fsm1 := match sm, ts'.mapping with
+      | .obj M _, some (f, mo) => s.fsm.set! M (some (.map f mo))
+      | _, _ => s.fsm
+    let fsm2 := match se, ts'.enum with
+      | .obj E _, some (f, bo) => fsm1.set! E (some (.enm f bo))
+      | _, _ => fsm1
+    let tbl' := match st, ts'.table with
+      | .obj T _, some tb => s.tbl.set! T (some tb)
+      | _, _ => s.tbl
+    let s' := { s with w := w', fsm := fsm2, tbl := tbl', lastTx := s.lastTx.set! slot ts'.lastTx }
+    let out := hellos.map (fun h => s!"hello {slot} @{h}")
+      ++ (match sm with | .obj M _ => [showFsm M (s'.fsm[M]?.getD none), showMap M (s'.fsm[M]?.getD none)] | _ => [])
+      ++ (match se with | .obj E _ => [showFsm E (s'.fsm[E]?.getD none), showBand E (s'.fsm[E]?.getD none), s!"lasttx {slot} {ts'.lastTx}"] | _ => [])
+      ++ (match st with | .obj T _ => showTbl T (s'.tbl[T]?.getD none) | _ => [])
+    (s', out ++ (match jump with | some _ => [s!"now {w'.clockMs}"] | none => []))
+
 def step (s : DState) (toks : List String) : DState × List String :=
   match toks with
   | ["clock", d] =>
@@ -296,46 +343,15 @@ def step (s : DState) (toks : List String) : DState × List String :=
         | "update", [] => fin tb.updateStatus []
         | "dump", [] => fin tb []
         | _, _ => (s, bad)
-  | ["tick", m, e, t, port] =>
-    let selM : Sel (Fsm × Option MapState) :=
-      if m == "-" then .null else match parseIdx m 16 with
-        | some M => match getMapObj s M with | some x => .obj M x | none => .err
-        | none => .err
-    let selE : Sel (Fsm × Option Band) :=
-      if e == "-" then .null else match parseIdx e 16 with
-        | some E => match getEnumObj s E with | some x => .obj E x | none => .err
-        | none => .err
-    let selT : Sel Table :=
-      if t == "-" then .null else match parseIdx t 16 with
-        | some T => match s.tbl[T]?.getD none with | some x => .obj T x | none => .err
-        | none => .err
-    let pm : Option PortMode := match port with
-      | "wired" => some .wired | "nolast" => some .nolast | "none" => some .none | _ => none
-    match selM, selE, selT, pm with
-    | .err, _, _, _ | _, .err, _, _ | _, _, .err, _ | _, _, _, none => (s, bad)
-    | sm, se, st, some pm =>
-      let slot := match se with | .obj E _ => E | _ => 0
-      let ts : TickState :=
-        { mapping := match sm with | .obj _ x => some x | _ => none,
-          enum := match se with | .obj _ x => some x | _ => none,
-          table := match st with | .obj _ x => some x | _ => none,
-          lastTx := s.lastTx[slot]! }
-      let (ts', hellos) := tick ts pm s.w.clockMs
-      let fsm1 := match sm, ts'.mapping with
-        | .obj M _, some (f, mo) => s.fsm.set! M (some (.map f mo))
-        | _, _ => s.fsm
-      let fsm2 := match se, ts'.enum with
-        | .obj E _, some (f, bo) => fsm1.set! E (some (.enm f bo))
-        | _, _ => fsm1
-      let tbl' := match st, ts'.table with
-        | .obj T _, some tb => s.tbl.set! T (some tb)
-        | _, _ => s.tbl
-      let s' := { s with fsm := fsm2, tbl := tbl', lastTx := s.lastTx.set! slot ts'.lastTx }
-      let out := hellos.map (fun h => s!"hello {slot} @{h}")
-        ++ (match sm with | .obj M _ => [showFsm M (s'.fsm[M]?.getD none), showMap M (s'.fsm[M]?.getD none)] | _ => [])
-        ++ (match se with | .obj E _ => [showFsm E (s'.fsm[E]?.getD none), showBand E (s'.fsm[E]?.getD none), s!"lasttx {slot} {ts'.lastTx}"] | _ => [])
-        ++ (match st with | .obj T _ => showTbl T (s'.tbl[T]?.getD none) | _ => [])
-      (s', out)
+  | "tickj" :: m :: e :: t :: port :: k :: dj :: [] =>
+    -- the tick with the clock moving on by `dj` ms right after its k-th reading (k = 1: after the millisecond reading taken on
+    -- entry; k = 2: after the seconds reading that follows it)
+    match parseDec k, parseDec dj with
+    | some kk, some d =>
+      if (kk != 1 && kk != 2) || d > 100000000 then (s, bad) else
+      tickOp s m e t port (some (kk, d))
+    | _, _ => (s, bad)
+  | ["tick", m, e, t, port] => tickOp s m e t port none
   | ["espinit"] =>
     if s.esp.isSome then (s, bad) else
     -- lltd_esp32_init: mapping, session, enumeration constructors in this order
